@@ -133,10 +133,17 @@ package otto
 //@+  ite(is(v.value, uint32), int64(v.value.(uint32)), ite(is(v.value, uint16), int64(v.value.(uint16)), ite(is(v.value, uint8), int64(v.value.(uint8)),
 //@+  satInt64(numOf(v))))))))))
 
+// 9.3.1: only a string that is a StrNumericLiteral reaches the library parsers (which
+// accept more: digit separators, "Inf"/"infinity"/"nan" in any case); everything else is NaN.
 //@ func parseNumber
+//@   props C05
 //@   nothrow
 //@   pure
 //@   nosafety
+//@   calls regexp.(*regexp.Regexp).MatchString(stringToNumberSyntax, _) as ok whenret false
+//@   at_call strconv.ParseFloat : called(ok) && ok && arg1 == 64
+//@   at_call strconv.ParseInt : called(ok) && ok && arg1 == 0 && arg2 == 64
+//@   ensures called(ok) && !ok ==> isNaN(result)
 
 //@ func (Value).number
 //@   props C05 C08 C09 C15
@@ -2000,6 +2007,10 @@ package otto
 // carries NO sign (signs belong to StrDecimalLiteral only), so the routing test for the hex
 // path matches only at the very start of the trimmed text.
 //@ initarg[C05,C06] stringToNumberParseInteger = `^(?:0[xX])`
+// 9.3.1 StrNumericLiteral with the white space already stripped: StrDecimalLiteral is an
+// optionally signed Infinity or DecimalDigits [. DecimalDigits?] | . DecimalDigits, each with
+// an optional ExponentPart; HexIntegerLiteral is unsigned.
+//@ initarg[C05,C06] stringToNumberSyntax = `^(?:[+-]?(?:Infinity|(?:[0-9]+\.?[0-9]*|\.[0-9]+)(?:[eE][+-]?[0-9]+)?)|0[xX][0-9a-fA-F]+)$`
 
 // 9.8.1 step 6-10: the exponent is written without leading zeros (strconv pads to two).
 //@ initarg[C06] matchLeading0Exponent = `([eE][\+\-])0+([1-9])`
@@ -2934,15 +2945,18 @@ package otto
 //@   ensures old(has(obj.property, name)) ==> result != nil && *result == old(obj.property[name])
 //@   ensures !old(has(obj.property, name)) && result != nil ==> fresh(result) && result.mode == 0 && is(result.value, Value) && result.value.(Value).kind == valueString && called(chr) && chr != 65533
 
-// 15.1.2.3 parseFloat strips the same StrWhiteSpaceChar set before scanning.
+// 15.1.2.3 parseFloat: leading StrWhiteSpaceChar are stripped (the same set as trim), the
+// longest prefix that is a StrDecimalLiteral is taken (pattern pinned below) and only that
+// text reaches the library parser; without such a prefix the result is NaN.
+//@ initarg[C13,C06] parseFloatPrefix = `^[+-]?(?:Infinity|(?:[0-9]+\.?[0-9]*|\.[0-9]+)(?:[eE][+-]?[0-9]+)?)`
 //@ func builtinGlobalParseFloat
 //@   props C13 C06
 //@   requires wfCall(call) && argOK(call, 0)
 //@   stable call.ArgumentList
-//@   safety C02 C13
-//@   invariant@1 0 <= end && end <= len(input)
-//@   at_call strings.Trim : arg1 == builtinStringTrimWhitespace
-//@   ensures isGoNumber(result) && is(result.value, float64)
+//@   calls regexp.(*regexp.Regexp).FindString(parseFloatPrefix, _) as lit
+//@   at_call strings.TrimLeft : arg1 == builtinStringTrimWhitespace
+//@   at_call strconv.ParseFloat : called(lit) && arg0 == lit && lit != "" && arg1 == 64
+//@   ensures isGoNumber(result) && is(result.value, float64) && called(lit) && (lit == "" ==> isNaN(numOf(result)))
 
 // 15.5.3.2 String.fromCharCode: one code unit per argument, each ToUint16(argument).
 //@ func builtinStringFromCharCode
